@@ -46,6 +46,12 @@ def run(run):
     blobs, local = {}, {}
     forms = {"built": lambda c: c, "optimized": lambda c: c.optimize(), "optimized-nofuse": lambda c: c.optimize(fuse=False),
              "lowered": lambda c: rt.dx.new_collection(c.expr.lower_completely())}
+    # warm the process-wide caches of the originating process the way a session would: every sort / set_index query is planned once
+    # (its divisions end up in divisions_lru) BEFORE the variants are pickled in their as-built form
+    for nm, c in cols.items():
+        if "set_index" in nm or "sort" in nm:
+            try_(lambda: c.optimize().divisions)
+    cols = catalogue.build_all(rt.dx, order_seed=run.seed + 1)     # built again, in another order, on the warm caches
     for nm, c in cols.items():
         for fn, f in forms.items():
             if quick and fn == "optimized-nofuse" and hash(nm) % 2:
